@@ -71,6 +71,8 @@ def _worker_batch(args):
                     agg['viol'].append((seed, v))
             else:
                 agg['other_props'][v['signature']] += 1
+        if any(v.get('rule') == 'hang' for v in res.violations):
+            break           # every further hang costs the whole watchdog time: this batch has found what there is to find
     faulthandler.cancel_dump_traceback_later()
     agg['stats'] = dict(agg['stats'])
     agg['other_props'] = dict(agg['other_props'])
@@ -254,7 +256,8 @@ def check(prop, tier, level, rule_text, components_real, components_stub, assump
             if harness_fail:
                 break
             n_new = sum(n for sg, n in total['sigcount'].items() if match_known(sg, known) is None)
-            stop = time.time() > deadline or (max_runs and next_i >= max_runs) or n_new >= 200
+            stop = time.time() > deadline or (max_runs and next_i >= max_runs) or n_new >= 200 or \
+                any(':hang:' in sg for sg in total['sigcount'])
             if not stop:
                 while len(pending) < jobs * 2:
                     submit()
@@ -369,6 +372,8 @@ def write_replay(prop, tier, seed, sig, v):
     _MINIMISED[0] += 1
     if _MINIMISED[0] > 6:
         budget = 0          # many distinct violations in one run: the first ones are minimised, the rest reported as found
+    if ':hang:' in sig:
+        budget = 0          # every execution that still hangs costs the whole watchdog time: reported as found
     try:
         small, execs = minimise(sc, sig, budget) if budget else (sc, 0)
     except Exception:
